@@ -91,13 +91,19 @@ fn alphabet() -> Vec<Rr> {
         r("f.z.y.", t::A, c::CH, 1, a1),
         // wrong class and outside at once
         r("s.y.", t::A, c::CH, 1, a1),
+        // label-boundary confusers: outside the zone although their wire form
+        // ends, octet for octet, with the apex's (01 'z' 01 'y' 00) — the
+        // apex's labels sit inside one longer label
+        r("x\\001z.y.", t::A, c::IN, 1, a1),       // sibling of the apex: label 'x' 01 'z'
+        r("w.X\\001Z.y.", t::A, c::IN, 1, a1),     // below that sibling (would land at w.z.y.)
+        r("x\\001z\\001y.", t::A, c::IN, 1, a1), // one label below the root
     ]
 }
 
 /// Sub-alphabets (indices into `alphabet()`) searched to closure.
 fn sub_alphabets() -> Vec<(&'static str, Vec<usize>)> {
     vec![
-        ("tree shape: owners at depths 0-3, wildcard, case variants, empty non-terminals, rejected adds at missing nodes", vec![7, 8, 11, 16, 19, 21, 22, 23, 24, 25, 26, 30, 32, 33, 34, 35]),
+        ("tree shape: owners at depths 0-3, wildcard, case variants, empty non-terminals, rejected adds at missing nodes", vec![7, 8, 11, 16, 19, 21, 22, 23, 24, 25, 26, 30, 32, 33, 34, 35, 38, 39]),
         ("RRsets: SOA/NS/A/TXT at the apex and one child, equal-by-case RDATA, TTL conflicts in either order", vec![0, 1, 2, 3, 4, 5, 6, 7, 8, 9, 10, 11, 12, 13, 14, 15, 31]),
         ("mixed: apex SOA/NS plus depth, TTL conflicts below empty non-terminals", vec![0, 2, 3, 4, 6, 8, 10, 16, 17, 18, 19, 20, 21, 24, 33, 36]),
     ]
@@ -108,7 +114,7 @@ const LOOKUP_TYPES: [u16; 5] = [t::A, t::NS, t::SOA, t::TXT, t::CNAME];
 /// Names looked up around every history, besides the model's nodes.
 fn probe_names(alpha: &[Rr]) -> Vec<WName> {
     let mut set: BTreeSet<WName> = alpha.iter().map(|r| wire::lower(&r.owner)).collect();
-    for extra in ["x.z.y.", "x.a.z.y.", "x.b.a.z.y.", "y.", "x.c.b.a.z.y.", "x.d.z.y.", "f.z.y.", "e.d.z.y.", "c.b.a.z.y.", "b.a.z.y."] {
+    for extra in ["w.z.y.", "x.z.y.", "x.a.z.y.", "x.b.a.z.y.", "y.", "x.c.b.a.z.y.", "x.d.z.y.", "f.z.y.", "e.d.z.y.", "c.b.a.z.y.", "b.a.z.y."] {
         set.insert(wire::wname(extra));
     }
     set.into_iter().collect()
